@@ -195,6 +195,57 @@ theorem connect_leaves_others (cfg : Cfg) (s : State) (u : Nat) (hd : Hdr) (v : 
           rw [updOther _ (fun m => { m with modId := id, connected := true }) (fun _ => rfl) v hv] at h'
           exact ⟨m', by rw [← h0 v hv]; exact h', rfl, rfl, fun x => x⟩
 
+/-! ## The decision, stated outright -/
+
+/-- the clash loop stops with "clash" exactly when some module of the snapshot clashes (whatever the DEBUG log lines
+in between did to the table) -/
+theorem clashLoop_decision (cfg : Cfg) (me : Module) : ∀ (os : List Module) (s : State),
+    (clashLoop cfg me os s).2 = os.any (clash me)
+  | [], _ => rfl
+  | o :: rest, s => by
+    unfold clashLoop
+    cases hc : clash me o with
+    | true => simp [hc]
+    | false => simp only [Bool.false_eq_true, if_false, List.any_cons, hc, Bool.false_or]; exact clashLoop_decision cfg me rest _
+
+/-- **When a connection request is accepted and when it is refused.**  For a requester that is not connected yet and whose
+name decodes (`nm`), with `me` the record the request describes: it is accepted iff — for an explicit id — the id is in
+`1 … DYN_MOD_ID_START` and no *other* module of the table clashes with it (same id while either side is unique, or same
+non-empty name while either side is unique), and — for id 0 — the dynamic range still has a free id.  Everything else is
+refused. -/
+theorem connect_decision (cfg : Cfg) (s : State) (u : Nat) (hd : Hdr) (nm : List Nat)
+    (hnc : (lookupMod s u).connected = false)
+    (hname : (if hd.mtype == cfg.mtConnectV2 then cstr s.buf 12 32 else some (lookupMod s u).name) = some nm)
+    (me : Module) (hme : me = setAll cfg s.buf hd nm (lookupMod s u)) :
+    (connectModule cfg s u hd).2 =
+      if me.modId != 0 then
+        !(me.modId < 1 || me.modId > cfg.dynStart) && !((s.upd u (setAll cfg s.buf hd nm)).mods.filter (·.uid != u)).any (clash me)
+      else (assignId cfg (s.upd u (setAll cfg s.buf hd nm))).isSome := by
+  subst hme
+  unfold connectModule
+  simp only [hnc, Bool.false_eq_true, if_false, hname]
+  by_cases h0 : ((setAll cfg s.buf hd nm (lookupMod s u)).modId != 0) = true
+  · simp only [h0, if_true]
+    by_cases hr : (decide ((setAll cfg s.buf hd nm (lookupMod s u)).modId < 1) ||
+        decide ((setAll cfg s.buf hd nm (lookupMod s u)).modId > cfg.dynStart)) = true
+    · simp only [hr, if_true, Bool.not_true, Bool.false_and]
+    · have hr' : (decide ((setAll cfg s.buf hd nm (lookupMod s u)).modId < 1) ||
+          decide ((setAll cfg s.buf hd nm (lookupMod s u)).modId > cfg.dynStart)) = false := by simpa using hr
+      simp only [hr', Bool.false_eq_true, if_false, Bool.not_false, Bool.true_and]
+      have hd' := clashLoop_decision cfg (setAll cfg s.buf hd nm (lookupMod s u))
+        ((s.upd u (setAll cfg s.buf hd nm)).mods.filter (·.uid != u)) (s.upd u (setAll cfg s.buf hd nm))
+      generalize clashLoop cfg (setAll cfg s.buf hd nm (lookupMod s u))
+        ((s.upd u (setAll cfg s.buf hd nm)).mods.filter (·.uid != u)) (s.upd u (setAll cfg s.buf hd nm)) = r at hd'
+      obtain ⟨s2, cl⟩ := r
+      simp only at hd' ⊢
+      rw [← hd']
+      cases cl <;> simp
+  · have h0' : ((setAll cfg s.buf hd nm (lookupMod s u)).modId != 0) = false := by simpa using h0
+    simp only [h0', Bool.false_eq_true, if_false]
+    cases assignId cfg (s.upd u (setAll cfg s.buf hd nm)) with
+    | none => simp
+    | some p => obtain ⟨id, off⟩ := p; simp
+
 /-! ### Non-vacuity -/
 /-- two clients ask for id 10: the second is refused and closed, the first keeps it -/
 def exRounds : List Round :=
